@@ -26,6 +26,7 @@ RULE = (
     "pause answers; seeded sampling, one fault per run; non-trivial = the fault fired inside an in-flight run (update or writer "
     "region); distinct = distinct (scenario digest incl. fault)"
 )
+LIFECYCLES = {}  # shared object life cycles (scen.add_lifecycles) with their default rates
 BUDGET = {"quick": {"runs": 3000, "chunk": 25}, "thorough": {"runs": 150000, "chunk": 50, "max_wall": 9000}}
 COMPONENTS = {
     "real": ["Runner loop incl. KeyboardInterrupt handling", "DataHandler (exclusive create, tmp file, temp dir, close)", "TDGLSolver.solve teardown / Solution assembly", "h5py/HDF5 on a real scratch directory", "TDGLSolver.update (Engine A runs)"],
